@@ -342,7 +342,7 @@ def run(repo: Repo, L: Ledger, tier: str):
                 L.fail("O9", f"{fn.short}:{h}", f"AGP file handle '{h}' is used outside format_agp: {norm(par)[:80]}", fn.loc(u))
             if okh:
                 L.ok("O9", f"{fn.short}:{h}", "AGP handle only handed to format_agp", fn.loc())
-    L.floor("O9", "AGP output handles", n_h, 2)
+    L.floor("O9", "AGP output handles", n_h, 1)
     L.assume("rows are Fragment or Gap objects with length >= 1")
 
 
